@@ -95,9 +95,12 @@ int file_write(const char *filename, AsmContext *asm_context, int file_type)
     write_uf2(&asm_context->memory, out);
   }
 
-  fclose(out);
+  // A full disk or an I/O error leaves an incomplete file.
+  int write_error = ferror(out);
 
-  return 0;
+  if (fclose(out) != 0) { write_error = 1; }
+
+  return write_error != 0 ? -2 : 0;
 }
 
 const char *file_get_file_type_name(int file_type)
